@@ -3,6 +3,7 @@ import XalanModel.C19.XListProofs
 import XalanModel.C19.ArenaProofs
 import XalanModel.C19.XDeque
 import XalanModel.C19.XBVecProofs
+import XalanModel.C19.RArenaProofs
 /-!
 # C19 — pluggable memory manager: balanced use; allocation failure is survivable
 
@@ -285,6 +286,34 @@ theorem arena_uncommitted_slot_counterexample :
       r.1 = .ok ∧ r.2.1.pending = true ∧ (r.2.1.destroy false r.2.2).1 = .ub ∧
       (r.2.1.destroy true r.2.2).1 = .ok ∧ (r.2.1.destroy true r.2.2).2.live = [] := by
   refine ⟨_, rfl, ?_⟩
+  decide
+
+/-- **`ReusableArenaAllocator::destroyObject` makes no allocation request** (it runs under
+`XObjectPtr::~XObjectPtr`, where a refused request would be std::terminate): whatever the object,
+whichever scan finds it, the block is moved to the front by `erase` *then* `push_front`, and the
+insertion reuses the list node that the erase has just parked.  (Hypothesis: the block list has
+its sentinel, i.e. some block was ever created.) -/
+theorem arena_destroyObject_makes_no_request (r : RArena) (blk slot : Nat) (l : Ledger)
+    (hh : r.head.isSome) :
+    (r.destroyObject false blk slot l).2.2.reqs = l.reqs :=
+  RArena.destroyObject_reqs blk slot r l hh
+
+/-- the allocator state used below: block size 2, five objects → blocks `[o5 -] [o1 o2] [o3 o4]` -/
+def raFive (failAt : Nat) : RArena × Ledger :=
+  let step := fun (s : RArena × Ledger) (x : Int) => let c := s.1.create x s.2; (c.2.2.1, c.2.2.2)
+  let s := [1, 2, 3, 4, 5].foldl step (({ bs := 2 } : RArena), ({ failAt := failAt } : Ledger))
+  s
+
+/-- **Mutation "push_front, then erase"**: releasing `o1` (owner not at the head) must move a
+block to the front; pushing first finds no parked node and makes a request — refused, it throws out
+of `destroyObject`.  As written the same release makes no request. -/
+theorem arena_push_then_erase_allocates_counterexample :
+    let s := raFive 0
+    let blkOfO1 := (s.1.nodes.map (·.2.blk))[1]!
+    (s.1.destroyObject false blkOfO1 0 s.2).2.2.reqs = s.2.reqs ∧
+    (s.1.destroyObject true blkOfO1 0 s.2).2.2.reqs = s.2.reqs + 1 ∧
+    (let t := raFive 16
+     t.2.reqs = 15 ∧ ((t.1.destroyObject true blkOfO1 0 t.2).1 = .oom) ∧ ((t.1.destroyObject false blkOfO1 0 t.2).1 = .ok)) := by
   decide
 
 /-- **Code as written: `XalanDeque::pushNewIndexBlock` leaves the null placeholder in the block
